@@ -208,8 +208,14 @@ func (w *nmWalker) expr(o, g ast.Expr, prefix string) {
 				continue
 			}
 			if len(f.Names) == 0 {
-				// embedded field: its name is the type name
+				// embedded field: its name is the type name; the field object is defined by the
+				// (last) identifier of the type expression
 				w.expr(f.Type, gf.Type, prefix)
+				if oi, gi := embeddedIdent(f.Type), embeddedIdent(gf.Type); oi != nil && gi != nil {
+					if fv, ok := w.info.Defs[oi].(*types.Var); ok && fv.Embedded() {
+						w.record(prefix+"."+oi.Name+"(embedded)", "embedded", oi.Name, gi.Name, w.pkg.PkgPath, true, fv)
+					}
+				}
 				continue
 			}
 			for j, n := range f.Names {
@@ -275,6 +281,28 @@ func (w *nmWalker) fieldTypes(o, g *ast.FieldList, prefix string) {
 	}
 	for i := range o.List {
 		w.expr(o.List[i].Type, g.List[i].Type, prefix)
+	}
+}
+
+// embeddedIdent returns the identifier that names an embedded field: T, *T, p.T, *p.T, T[A].
+func embeddedIdent(e ast.Expr) *ast.Ident {
+	for {
+		switch x := e.(type) {
+		case *ast.Ident:
+			return x
+		case *ast.StarExpr:
+			e = x.X
+		case *ast.ParenExpr:
+			e = x.X
+		case *ast.SelectorExpr:
+			return x.Sel
+		case *ast.IndexExpr:
+			e = x.X
+		case *ast.IndexListExpr:
+			e = x.X
+		default:
+			return nil
+		}
 	}
 }
 
